@@ -176,13 +176,17 @@ func runC09(cfg config) {
 			}
 		}
 	}
-	for _, x := range days {
+	const boundaryDays = 18 // the hand-picked days: full treatment; the days of the leap cycle: day-precision Dates only
+	for i, x := range days {
 		for prec := 0; prec <= 2; prec++ {
+			if i >= boundaryDays && prec != 2 {
+				continue
+			}
 			vals = append(vals, c09Date(x.y, x.m, x.d, prec))
 		}
 	}
 	for i, x := range days {
-		if i >= 14 && cfg.tier != "thorough" {
+		if (i >= 14 && cfg.tier != "thorough") || i >= boundaryDays {
 			break
 		}
 		for prec := 0; prec <= 6; prec++ {
@@ -214,14 +218,23 @@ func runC09(cfg config) {
 	if cfg.tier == "thorough" {
 		nAmt = len(amounts)
 	}
-	for _, v := range vals {
+	nBoundaryVals := boundaryDays * 3
+	for vi, v := range vals {
+		cycleDay := cfg.tier == "thorough" && strings.HasPrefix(v.lit, "@") && !strings.Contains(v.lit, "T") && vi >= nBoundaryVals && vi < len(days)+2*boundaryDays
 		for ui, u := range units {
 			if cfg.tier != "thorough" && u.coq == "UOther" && ui%3 != 0 {
 				continue
 			}
-			for k := 0; k < nAmt; k++ {
+			if cycleDay && (u.coq == "UOther" || ui%2 == 1) {
+				continue // the leap-cycle days: calendar keywords in the singular only
+			}
+			n := nAmt
+			if cycleDay {
+				n = 3
+			}
+			for k := 0; k < n; k++ {
 				amt := amounts[k%len(amounts)]
-				if cfg.tier != "thorough" {
+				if cfg.tier != "thorough" || cycleDay {
 					amt = pick(r, amounts)
 				}
 				q, err := system.ParseQuantity(amt, u.kw)
